@@ -267,6 +267,9 @@ class Interp:
         if dotted in ("math.pi", "torch.pi", "numpy.pi"):
             from .dom_real import pi
             return VNum(pi(ctx))
+        if dotted in ("math.inf", "torch.inf", "numpy.inf"):
+            from .optable_torch import inf
+            return VNum(inf(ctx))
         if dotted in self.optable:
             self.optable_log.add(dotted)
             e = self.optable[dotted]
@@ -649,6 +652,9 @@ class Interp:
             if isinstance(v, VObj):
                 return v.cls.is_subclass_of(cls.name)
             return False
+        if isinstance(cls, VBuiltin):
+            # a class whose constructor is an op-table function (linear_operator operators, torch.nn.Parameter, ...)
+            return self.isinstance_check(ctx, v, VExtClass(cls.name))
         raise Undecided(f"isinstance against {cls.kind}")
 
     # ================================================================== statements ========
@@ -1168,7 +1174,12 @@ class Interp:
         return self.e_ListComp(ctx, node, env)
 
     def e_SetComp(self, ctx, node, env):
-        return self.e_ListComp(ctx, node, env)
+        items = self.e_ListComp(ctx, node, env).items
+        out = []
+        for x in items:  # a set: equal elements collapse (equality decided on this path)
+            if not any(ctx.truth(self.eq(ctx, x, y)) for y in out):
+                out.append(x)
+        return VTuple(out)
 
     def e_DictComp(self, ctx, node, env):
         d = VDict()
